@@ -169,7 +169,7 @@ def run(tier, seed):
     groups = collections.defaultdict(list)
     for d, o in zip(docs, outs):
         pk = o['out']['pkgs']
-        if isinstance(pk, list) and not (set().union(*[x['classes'] for x in d.declared], d.classes) & set(CLASS_FINDING)) and not d.meta.get('nonregistry') and not d.meta.get('escaped_section_keys') and not d.meta.get('escaped_keys'):
+        if isinstance(pk, list) and not (set().union(*[x['classes'] for x in d.declared], d.classes) & set(CLASS_FINDING)) and not d.meta.get('nonregistry') and not d.meta.get('escaped_section_keys') and not d.meta.get('escaped_keys') and '\\u' not in d.text and '\\/' not in d.text:
             key = (d.fmt, tuple(sorted(map(str, (expected_tuple(x) for x in d.declared)))))
             groups[key].append(tuple(sorted(map(str, impl_tuples(d, pk)))))
     nmeta = sum(len(v) for v in groups.values())
